@@ -56,6 +56,26 @@ def unstructurable(rng: random.Random) -> list[dict]:
     out = [f for f in fam if gen_flow.well_formed(f["routines"])]
     if len(out) != len(fam):
         raise common.MachineryError("an 'unstructurable' witness is not well-formed")
+    # the same graphs in other routine tables: alias (empty) routines first / in between / last, several in a row, and as coroutine scripts
+    # whose name table is a global list (the fallback hands the tables to the SsbScript decompiler)
+    tabled = []
+    for f in fam[::2] + fam[8:9]:
+        for where in ("first", "last", "middle", "first-two", "coro-first", "coro-last"):
+            rs_ = [list(r) for r in f["routines"]]
+            if where in ("first", "coro-first"):
+                rs_ = [[]] + rs_
+            elif where == "first-two":
+                rs_ = [[], []] + rs_
+            elif where in ("last", "coro-last"):
+                rs_ = rs_ + [[]]
+            else:
+                rs_ = rs_[:1] + [[], []] + rs_[1:]
+            if where.startswith("coro"):
+                infos = [{"kind": "COROUTINE", "target": "i:0", "coro": f"CORO_{i}"} for i in range(len(rs_))]
+            else:
+                infos = [{"kind": "GENERIC", "target": "i:0", "coro": ""}] + [{"kind": "ACTOR", "target": "i:0" if i % 2 else "c:A", "coro": ""} for i in range(1, len(rs_))]
+            tabled.append({"routines": rs_, "infos": infos, "origin": "unstructurable-tables"})
+    out += [t for t in tabled if gen_flow.well_formed(t["routines"])]
     # random variations: bigger random flows are mostly unstructurable
     for _ in range(300):
         f = gen_flow.random_flow(rng, rng.choice([8, 10, 12]))
